@@ -121,6 +121,47 @@ theorem examplesWFor_of_valid (T : Table) (o : Opts) (hT : TableOK T = true) (d 
           exact shape_of_localOK T o e _ hke (hv e hre)
         simp [this]
 
+/-- the example objects the code visits under a node are well-formed as soon as every node the code reaches
+from it violates no rule in force -/
+theorem examplesWFor_of_reached_rules (T : Table) (o : Opts) (hT : TableOK T = true) (d : Doc)
+    (hv : ∀ n, Reach (active T o) d n → rulesOK o n = true) : examplesWFor o d = true := by
+  unfold examplesWFor
+  cases hd : o.exDisabled with
+  | true => rfl
+  | false =>
+    cases hs : d.attrs.flag "hasSchema" with
+    | false => rfl
+    | true =>
+      cases hk : exampleKinds.contains d.kind with
+      | false => rfl
+      | true =>
+        have : examplesWF d = true := by
+          unfold examplesWF
+          rw [List.all_eq_true]
+          intro a ha
+          obtain ⟨r, e, hr, hkr, he, hke, rfl⟩ := mem_exampleEntries ha
+          cases d with | node k aa kids =>
+          cases r with | node rk ra rkids =>
+          simp only [Doc.kind] at hkr hk
+          subst hkr
+          simp only [Doc.attrs] at hs
+          have hkm : k ∈ exampleKinds := by simpa using hk
+          have hf := tableFacts T hT
+          have a1 : active T o k aa "examples" = true := by
+            unfold active
+            rw [(hf.ex k hkm).2.2]
+            have hg : structGuard k aa "examples" = true := by
+              simp only [exampleKinds, List.mem_cons, List.not_mem_nil, or_false] at hkm
+              rcases hkm with rfl | rfl | rfl <;> simp [structGuard, hs]
+            simp [anyHolds, guardsHold, litHolds, hd, hg]
+          have a2 : active T o .exampleRef ra "value" = true := by
+            unfold active
+            rw [anyHolds_of_nil o _ hf.exRef]
+            simp [structGuard]
+          have hre : Reach (active T o) (.node k aa kids) e := .step hr a1 (.step he a2 .self)
+          exact shape_of_rulesOK o e hke (hv e hre)
+        simp [this]
+
 /-- a containment edge of the property that the table covers is followed under every option set -/
 theorem covered_active (T : Table) (o : Opts) (k : Kind) (a : Attrs) (pos : String)
     (hs : (k, pos) ∈ specEdges) (hc : (k, pos) ∉ uncovered T) : active T o k a pos = true := by
